@@ -252,6 +252,12 @@ func runC31(c *Ctx) {
 		}
 	}
 	c.MinObs("C31.T2", 20)
+	// B1: the string decoder's slice bounds are proven
+	if fn := c.Fn("C31.B1", "brepr.DecodeStr"); fn != nil {
+		if c.checkSliceBounds("C31.B1", fn) < 3 {
+			c.Unresolved("C31.B1", "fewer than 3 slice expressions found in DecodeStr")
+		}
+	}
 	// Reader.Next rejects kind > Max before dispatch
 	if fn := c.Fn("C31.O1", "brepr.(*Reader).Next"); fn != nil {
 		maxK, _ := c.ConstInt("base", "InternalKeyKindMax")
